@@ -232,9 +232,11 @@ fn extract_files_with_metadata(
     // Get file list. Real names (from the listfile) come first: the placeholder names that
     // list_all_with_hashes() produces for HET/BET archives cannot be read back by name.
     let _ = metadata;
+    // (an I/O error is not "no listfile": it aborts the rebuild instead of producing a target without names or files)
     let files = match archive.list() {
         Ok(files) if !files.is_empty() => files,
-        _ => archive.list_all().unwrap_or_default(),
+        Err(Error::Io(e)) => return Err(Error::Io(e)),
+        _ => archive.list_all()?,
     };
 
     let mut extracted_files = Vec::new();
@@ -260,9 +262,11 @@ fn extract_files_with_metadata(
         // Extract file data
         let data = match archive.read_file(&file.name) {
             Ok(data) => data,
+            // Files are left out only by an option (skip_encrypted, skip_signatures): a file that cannot be
+            // read aborts the rebuild -- the target replaces whatever was at its path and would lack the file
             Err(e) => {
                 log::warn!("Failed to read file {}: {}", file.name, e);
-                continue;
+                return Err(e);
             }
         };
 
